@@ -785,6 +785,14 @@ func drivePrimSweep(c *DriverCtx) error {
 		{"WriteFixedStringListWithPadding", "ReadFixedStringListTrimPadding", func(n int) map[string]any {
 			return map[string]any{"n": 16, "pad": 0x20, "left": false, "count": n, "elem": one(0x52, 0x53, 0x54), "vals": []any{}}
 		}},
+		// the LENGTH of one element of a text list (its own prefix is written by another code path than a plain text's)
+		{"WriteStringList", "ReadStringList", func(n int) map[string]any {
+			el := make([]int, n)
+			for i := range el {
+				el[i] = 0x61 + (n+i)%23
+			}
+			return map[string]any{"pw2": 2, "vals": anyList([][]int{el, {0x46}})}
+		}},
 	}
 	// counts at which block-wise code has its fenceposts, beyond the dense range: powers of two
 	// and round decimal numbers (thorough: with their neighbours; 2^14 and more for one-byte elements only)
@@ -972,3 +980,71 @@ func drivePrimCut(c *DriverCtx) error {
 }
 
 func init() { Drivers["prim-cut"] = drivePrimCut }
+
+// prim-cut-long: length-prefixed texts and lists too long for any scratch block or chunk size a reader might use
+// (beyond 64 KiB behind 32- and 64-bit prefixes, just below it behind 16-bit ones), cut short at the places where a
+// chunked reader would notice last: one byte before the end, inside the last 4 KiB block, just past 64 KiB.
+func drivePrimCutLong(c *DriverCtx) error {
+	r := c.G.R
+	for rep := 0; rep < c.N; rep++ {
+		for _, pw := range []int{2, 4, 8} {
+			for _, le := range []bool{false, true} {
+				lens := []int{65536, 70000 + r.Intn(3000)}
+				if pw == 2 {
+					lens = []int{65535, 60000 + r.Intn(5000)}
+				}
+				for _, L := range lens {
+					txt := make([]int, L)
+					for i := range txt {
+						txt[i] = 0x41 + (i*7+L)%23
+					}
+					type wr struct {
+						wfn, rfn string
+						args     map[string]any
+					}
+					cases := []wr{{"WriteString", "ReadString", map[string]any{"s": txt}}}
+					if L != 65536 {
+						el := make([][]int, L/4)
+						for i := range el {
+							el[i] = []int{i >> 8 & 0xFF, i & 0xFF, 0x5A, i * 3 & 0xFF}
+						}
+						if pw == 2 && len(el) > 16383 {
+							el = el[:16383]
+						}
+						cases = append(cases, wr{"WriteBasicTypeList", "ReadBasicTypeList", map[string]any{"ek": "u32", "vals": anyList(el)}})
+					}
+					for _, cs := range cases {
+						cs.args["pw"], cs.args["le"] = pw, le
+						m := NewMachine()
+						ev, err := m.Exec(Op{Op: "prim", B: "b", Fn: cs.wfn, Args: cs.args})
+						if err != nil {
+							return err
+						}
+						w := ev.Post
+						if ev.Res != "ok" || len(w) < pw+100 {
+							continue
+						}
+						ops := []Op{}
+						for _, k := range []int{len(w) - 1, len(w) - 2 - r.Intn(4000), pw + 65535 - r.Intn(4096)} {
+							if k <= pw || k >= len(w) {
+								continue
+							}
+							b := fmt.Sprintf("c%d", k)
+							ra := map[string]any{"pw": pw, "le": le}
+							if ek, ok := cs.args["ek"]; ok {
+								ra["ek"] = ek
+							}
+							ops = append(ops, Op{Op: "load", B: b, Bytes: w[:k]}, Op{Op: "prim", B: b, Fn: cs.rfn, Args: ra, Tag: "truncated"})
+						}
+						if err := c.Run(ops); err != nil {
+							return err
+						}
+					}
+				}
+			}
+		}
+	}
+	return nil
+}
+
+func init() { Drivers["prim-cut-long"] = drivePrimCutLong }
